@@ -3649,8 +3649,153 @@ Proof.
     apply G3 in Hn. rewrite Hids in Hn. inversion Hn. }
   split; [exact Hj|]. split; [rewrite G2, Hids; reflexivity|]. split; [apply adj_ids_nil_inv, Hids|]. split.
   - intros m Hm. split; [apply A, Hm|]. split.
-    + intros p Hp. apply B; auto. intros [].
+    + intros p Hp. apply B; auto; intros [].
     + unfold scopeHeight. destruct (scope (nd s m)) as [b|] eqn:Eb; [|destruct (A m Hm); unfold unset; lia].
-      apply C; auto. intros [].
+      apply C; auto; intros [].
   - split; [exact E1|]. intros n Hn. destruct (E2 n Hn) as [Hg Hh]. split; [exact Hg|apply Hh, Hj].
+Qed.
+
+(** ** [addChild]: link, make the input necessary, adjust heights, queue the child *)
+Record ac_frame (s s' : state) : Prop := {
+  cf_next : next s' = next s;
+  cf_binds : binds s' = binds s;
+  cf_obs : obs s' = obs s;
+  cf_stabNum : stabNum s' = stabNum s;
+  cf_status : status s' = status s;
+  cf_maxHeight : maxHeight s' = maxHeight s;
+  cf_setDuring : setDuring s' = setDuring s;
+  cf_setRemoved : setRemoved s' = setRemoved s;
+  cf_handlers : handlers s' = handlers s;
+  cf_len : length (a_byHeight (adj s')) = length (a_byHeight (adj s));
+  cf_has : forall m, has s' m <-> has s m;
+  cf_static : forall m,
+    nkind (nd s' m) = nkind (nd s m) /\ decl (nd s' m) = decl (nd s m) /\ scope (nd s' m) = scope (nd s m) /\
+    valid (nd s' m) = valid (nd s m) /\ forceNec (nd s' m) = forceNec (nd s m) /\
+    observers (nd s' m) = observers (nd s m) /\
+    recomputedAt (nd s' m) = recomputedAt (nd s m) /\ changedAt (nd s' m) = changedAt (nd s m) /\
+    setAt (nd s' m) = setAt (nd s m) /\ value (nd s' m) = value (nd s m) /\ pending (nd s' m) = pending (nd s m);
+  cf_log : exists l, log s' = l ++ log s /\ Forall is_nec l;
+  cf_mono : forall m, inGraph (nd s m) = true -> inGraph (nd s' m) = true
+}.
+
+Lemma ac_frame_refl s : ac_frame s s.
+Proof.
+  split; try reflexivity; auto; try (intros m; repeat split; fail).
+  exists []. split; [reflexivity|constructor].
+Qed.
+
+Lemma ac_frame_trans s1 s2 s3 : ac_frame s1 s2 -> ac_frame s2 s3 -> ac_frame s1 s3.
+Proof.
+  intros A B. split.
+  - rewrite (cf_next _ _ B). apply A. - rewrite (cf_binds _ _ B). apply A.
+  - rewrite (cf_obs _ _ B). apply A. - rewrite (cf_stabNum _ _ B). apply A.
+  - rewrite (cf_status _ _ B). apply A. - rewrite (cf_maxHeight _ _ B). apply A.
+  - rewrite (cf_setDuring _ _ B). apply A. - rewrite (cf_setRemoved _ _ B). apply A.
+  - rewrite (cf_handlers _ _ B). apply A. - rewrite (cf_len _ _ B). apply A.
+  - intros m. rewrite (cf_has _ _ B). apply A.
+  - intros m. destruct (cf_static _ _ A m) as (?&?&?&?&?&?&?&?&?&?&?),
+                       (cf_static _ _ B m) as (?&?&?&?&?&?&?&?&?&?&?).
+    repeat split; congruence.
+  - destruct (cf_log _ _ A) as (l1 & E1 & F1), (cf_log _ _ B) as (l2 & E2 & F2).
+    exists (l2 ++ l1). rewrite E2, E1, app_assoc. split; [reflexivity|]. apply Forall_app; auto.
+  - intros m Hm. apply B, A, Hm.
+Qed.
+
+Lemma ac_frame_bn s s' : bn_frame s s' -> ac_frame s s'.
+Proof.
+  intros F. split; try apply F.
+  - rewrite (bf_byHeight _ _ F). reflexivity.
+  - intros m. destruct (bf_static _ _ F m) as (?&?&?&?&?&?&?&?&?&?&?&?). repeat split; assumption.
+Qed.
+
+Lemma ac_frame_aj s s' : aj_frame s s' -> ac_frame s s'.
+Proof.
+  intros F. split; try apply F.
+  - intros m. destruct (af_node _ _ F m) as (?&?&?&?&?&?&?&?&?&?&?&?&?&?). repeat split; assumption.
+  - exists []. split; [apply F|constructor].
+  - intros m. destruct (af_node _ _ F m) as (_&_&_&_&_&_&_&_&->&_). auto.
+Qed.
+
+Definition adj_idle (s : state) : Prop :=
+  a_num (adj s) = 0 /\ Forall (fun q => q = []) (a_byHeight (adj s)) /\ forall m, hAdj (nd s m) = unset.
+
+Lemma adj_idle_ok s : adj_idle s -> adj_ok s.
+Proof.
+  intros (A & B & C). pose proof (adj_ids_nil s B) as E. split; rewrite ?E.
+  - constructor.
+  - rewrite A. reflexivity.
+  - intros n. rewrite C. split; [intros H; inversion H|congruence].
+Qed.
+
+Lemma adj_idle_bn s s' : bn_frame s s' -> adj_idle s -> adj_idle s'.
+Proof.
+  intros F (A & B & C). split; [rewrite (bf_anum _ _ F); exact A|]. split; [rewrite (bf_byHeight _ _ F); exact B|].
+  intros m. destruct (bf_static _ _ F m) as (_&_&_&_&_&_& -> &_). apply C.
+Qed.
+
+(** the structural facts adjusting needs, from the invariant with some nodes still open *)
+Lemma AStat_of X s :
+  Sta s -> BInv X s ->
+  (forall x, x ∈ X -> inGraph (nd s x) = isNecessary (nd s x) /\
+                      forall q, q ∈ parents (nd s x) -> q ∈ decl (nd s x)) ->
+  (forall n b, has s n -> scope (nd s n) = Some b -> ~ inGen s b n -> valid (nd s n) = false) ->
+  AStat s.
+Proof.
+  intros St B HX Hdead.
+  assert (Hpd : forall m q, q ∈ parents (nd s m) -> q ∈ decl (nd s m)).
+  { intros m q Hq. destruct (decide (m ∈ X)) as [Hx|Hx]; [apply (HX m Hx), Hq|].
+    destruct (inGraph (nd s m)) eqn:Eg.
+    - rewrite <- (b_par _ _ B m Hx Eg). exact Hq.
+    - destruct (b_zero1 _ _ B m Eg) as [E _]. rewrite E in Hq. inversion Hq. }
+  split.
+  - apply B.
+  - intros m. destruct (decide (m ∈ X)) as [Hx|Hx]; [apply (HX m Hx)|apply (b_nec _ _ B m Hx)].
+  - intros c p Hc. apply (edges_parent_child s c p (b_edges _ _ B)) in Hc. split.
+    + destruct (inGraph (nd s c)) eqn:Eg; [reflexivity|].
+      destruct (b_zero1 _ _ B c Eg) as [E _]. rewrite E in Hc. inversion Hc.
+    + intros ->. apply (no_cycle s p p St (dr_refl s p)), Hpd, Hc.
+  - intros m b Hm Hs. destruct (sta_scopes s St m b Hs) as [[r Hr] Hlt].
+    split; [|split; [apply (bw_kind_lhs s b r (sta_binds s St b r Hr))|lia]].
+    destruct (decide (m ∈ b_rhsNodes (bd s b))) as [|Hno]; [assumption|].
+    pose proof (Hdead m b (has_inGraph s m Hm) Hs Hno) as E. rewrite (b_valid _ _ B m Hm) in E. discriminate.
+  - intros p b Hp Hk. pose proof (sta_kinds s St p Hp) as K. rewrite Hk in K. symmetry. apply K.
+  - intros b r Hr. unfold bd in Hr. destruct (binds s !! b) as [rec|] eqn:E; [|inversion Hr].
+    simpl in Hr. destruct (bw_rhsNodes s b rec (sta_binds s St b rec E) r Hr) as [_ Hs].
+    destruct (sta_scopes s St r b Hs) as [_ Hlt]. lia.
+Qed.
+
+Lemma BInv_after_adjust X s1 s2 :
+  BInv X s1 -> aj_frame s1 s2 -> height_ok s2 -> heap_ok s2 ->
+  (forall m, inGraph (nd s2 m) = false -> height (nd s2 m) = unset) ->
+  (forall x, x ∈ X -> inGraph (nd s1 x) = true /\ isNecessary (nd s1 x) = true /\
+                      parents (nd s1 x) = decl (nd s1 x)) ->
+  BInv [] s2.
+Proof.
+  intros [b_edges0 b_zero10 b_zero20 b_nec0 b_par0 b_height0 b_heap0 b_count0 b_obs0 b_valid0 b_sreg0 b_log0 b_life0]
+         F Hh Hk Hz HX.
+  assert (Hp : forall m, parents (nd s2 m) = parents (nd s1 m)) by (intros m; apply (af_node _ _ F m)).
+  assert (Hc : forall m, children (nd s2 m) = children (nd s1 m)) by (intros m; apply (af_node _ _ F m)).
+  assert (Ho : forall m, observers (nd s2 m) = observers (nd s1 m)) by (intros m; apply (af_node _ _ F m)).
+  assert (Hg : forall m, inGraph (nd s2 m) = inGraph (nd s1 m)) by (intros m; apply (af_node _ _ F m)).
+  assert (Hd : forall m, decl (nd s2 m) = decl (nd s1 m)) by (intros m; apply (af_node _ _ F m)).
+  assert (Hsc : forall m, scope (nd s2 m) = scope (nd s1 m)) by (intros m; apply (af_node _ _ F m)).
+  assert (Hv : forall m, valid (nd s2 m) = valid (nd s1 m)) by (intros m; apply (af_node _ _ F m)).
+  assert (Hnec : forall m, isNecessary (nd s2 m) = isNecessary (nd s1 m)).
+  { intros m. apply isNecessary_ext; auto. apply (af_node _ _ F m). }
+  constructor.
+  - apply (edges_ok_ext s1 s2); auto.
+  - intros m Hm. split; [|apply Hz, Hm]. rewrite Hp. rewrite Hg in Hm. apply b_zero10, Hm.
+  - intros m _. rewrite Hg, Hc, Ho. intros Hm. destruct (decide (m ∈ X)) as [Hx|Hx]; [|apply b_zero20; assumption].
+    destruct (HX m Hx) as (E & _). congruence.
+  - intros m _. rewrite Hg, Hnec. destruct (decide (m ∈ X)) as [Hx|Hx]; [|apply b_nec0, Hx].
+    destruct (HX m Hx) as (-> & -> & _). reflexivity.
+  - intros m _. rewrite Hg, Hp, Hd. intros Hm. destruct (decide (m ∈ X)) as [Hx|Hx]; [apply (HX m Hx)|apply b_par0; assumption].
+  - intros m _ Hm. apply (Hh m Hm).
+  - exact Hk.
+  - apply (count_ok_ext s1 s2); auto; apply F.
+  - apply (obs_ok_ext s1 s2); auto; apply F.
+  - intros m. rewrite Hg, Hv. apply b_valid0.
+  - intros m b. rewrite !Hg, Hsc. apply b_sreg0.
+  - rewrite (af_log _ _ F). exact b_log0.
+  - intros m. rewrite Hg, (af_log _ _ F). apply b_life0.
 Qed.
